@@ -1,6 +1,7 @@
 SPECIFICATION GSpec
 CONSTANTS
-  Values = {1, 2, 3, 4}
+  Values = {0, 1, 2, 3}
+  NegMag = {1}
   Gaps = {1}
   MaxLen = 5
 INVARIANT Emit
